@@ -196,6 +196,7 @@ def shards(tier, seed):
     for fam in ("2+2", "ene-shift") + (("DA",) if tier == "thorough" else ()):
         for invert in (False, True):
             sh.append(dict(h="family", params=dict(family=fam, invert=invert)))
+    sh.append(dict(h="family", params=dict(family="2+2-adj", invert=True)))
     if tier == "thorough":
         for hn, he in hosts:
             if hn == 3:
